@@ -116,21 +116,24 @@ CFGS = {"default": lambda f: f not in ("lsp", "_build-parser"),
 def r_fmt_twins(ctx):
     import c06
     rid = "C19.fmt-twins"
-    ctx.rule(rid, "for every comment-free node shape of the C06 enumeration the Display source prints, modulo layout whitespace and optional "
-                  "commas, the same text under the default configuration and under the configurations without ast-comments / ast-span "
-                  "(cfg twins of the printer agree)", floor=300)
+    ctx.rule(rid, "for every comment-free node shape of the C06 enumeration the Display source prints the same text under the default "
+                  "configuration and under the configurations without ast-comments / ast-span (cfg twins of the printer agree): first modulo "
+                  "layout whitespace and optional commas (a different token sequence), then exactly (a different layout)", floor=300)
     f = ctx.facts
     b = c06.Builder(f)
     sh = c06.Shapes(b)
     c06.CTRLS[:] = [v["name"] for v in f.item("src/token.rs", "enum", "ControlOperator")["variants"]]
     worlds = {name: fm.World(f, cfg=(lambda c, feat=feat: absint.eval_cfg(c, feat))) for name, feat in CFGS.items()}
+    seen_layout = set()
     for name, node, expect in c06.cases(sh):
         if "comments" in name:
             continue
         outs = {}
+        raw = {}
         for cfgname, w in worlds.items():
             try:
-                outs[cfgname] = c06.norm(fm.render_node(w, node))
+                raw[cfgname] = fm.render_node(w, node)
+                outs[cfgname] = c06.norm(raw[cfgname])
             except Unknown as e:
                 outs[cfgname] = None
                 ctx.incomplete_msg(rid, "%s under %s: %s" % (name, cfgname, e))
@@ -144,6 +147,20 @@ def r_fmt_twins(ctx):
             if outs[cfgname] != outs["default"]:
                 ctx.violation(rid, key, c06.AST, line, "%s prints %r under the default features but %r under %s: the formatted text depends on an "
                               "unrelated cargo feature" % (name, outs["default"], outs[cfgname], cfgname))
+            elif raw[cfgname] != raw["default"]:
+                # same text up to layout, but not the same text: C19 says "same formatted text up to comments"
+                import difflib
+                ops = []
+                sm = difflib.SequenceMatcher(None, raw["default"], raw[cfgname], autojunk=False)
+                for tag, i1, i2, j1, j2 in sm.get_opcodes():
+                    if tag != "equal":
+                        ctxt = (raw["default"][i2:i2 + 1] or "$")
+                        ops.append("%r->%r before %r" % (raw["default"][i1:i2], raw[cfgname][j1:j2], ctxt))
+                ek = "layout|%s|%s|%s" % (ty, cfgname, ";".join(ops))
+                if ek not in seen_layout:
+                    seen_layout.add(ek)
+                    ctx.violation(rid, ek, c06.AST, line, "%s prints %r under the default features but %r under %s: the same tokens in a different "
+                                  "layout (%s) — the formatted text depends on an unrelated cargo feature" % (name, raw["default"], raw[cfgname], cfgname, "; ".join(ops)))
 
 
 def r_tabletwins(ctx):
